@@ -149,7 +149,7 @@ func runHistoryCase(c Case) Result {
 		if !same && strings.HasPrefix(got.wire, "E ") && strings.HasPrefix(want.wire, "E ") && strings.Contains(c.Expr, "{") {
 			// several members of one object constructor fail: which error is reported depends on Go's
 			// map iteration order. Accept when some fresh evaluation reports the same error.
-			for k := 0; k < 16 && !same; k++ {
+			for k := 0; k < 100 && !same; k++ {
 				f2, _ := jsonata.Compile(c.Expr)
 				if len(c.Vars) > 0 {
 					f2.RegisterVars(deepCopyJSON(interface{}(c.Vars)).(map[string]interface{}))
